@@ -30,6 +30,8 @@ rm -f "$AT"/c09-sweep-evidence.json
 VERIF_EVIDENCE_PATH="$AT"/c09-sweep-evidence.json VERIF_REPLAY_TAG=sweep "$AT"/release/c09cfg --tier "$TIER"; rc1=$?
 "$ST"/release/c09 --tier "$TIER"; rc2=$?
 cleanup_scratch
-if [ $rc1 -eq 2 ] || [ $rc2 -eq 2 ]; then exit 2; fi
+# a violation found (and replayed) by either binary is the verdict; any other non-zero status of either
+# binary (2, a panic's 101, a signal) is a machinery failure, never "held"
 if [ $rc1 -eq 1 ] || [ $rc2 -eq 1 ]; then exit 1; fi
+if [ $rc1 -ne 0 ] || [ $rc2 -ne 0 ]; then exit 2; fi
 exit 0
